@@ -8,7 +8,7 @@
 (* faithful layer; every transition is emitted for replay on real sets (G).   *)
 EXTENDS Orswot, TLC, Json
 
-CONSTANTS Times, Replicas, MaxOps, MaxMerges, Mode, RepairSrc, EmitEdges,
+CONSTANTS Times, Replicas, MaxOps, MaxMerges, Mode, RepairSrc, EmitEdges, NoRepair,
           WithPurge    \* TRUE: any replica may purge at any moment (C08's local facts on sets reached through merges)
 
 VARIABLES log,     \* sequence of issued operations [k, ts, del], sorted by stamp (arrival order is decided by Apply)
@@ -63,6 +63,7 @@ MergeInto(r, r2) ==
   /\ op' = [kind |-> "merge", r |-> r, r2 |-> r2]
 
 Repair(r, r2, remFirst) ==
+  /\ ~NoRepair
   /\ r # r2
   /\ merges < MaxMerges
   /\ rep' = [rep EXCEPT ![r] = ApplyDiff(rep[r], rep[r2], RepairSrc, remFirst)]
@@ -130,6 +131,8 @@ C08_StillRefused ==
 C08_PurgeInvisible == [][ op'.kind = "purge" => \A r \in Replicas : Live(rep'[r]) = Live(rep[r]) ]_vars
 
 ----------------------------------------------------------------------------
+\* configurations that are about merging only (C03 on single-source sets, where a repair through the one source would itself
+\* break the gap-free order the property presupposes) leave the repair transitions out: constant NoRepair
 \* (G) edge emission.  `diffs` is the oracle's DiffSpec for every ordered pair of the target state.
 PrintEdge ==
   IF EmitEdges
